@@ -133,6 +133,82 @@ func init() {
 		})
 		c.defStringList("inmemGetSlices", slices)
 
+		// ---------------- git-backed store: the version comparison is made on EVERY attempt of the retry loop
+		const gr = "go/store/blobstore/git_blobstore.go"
+		gf, err := c.file(gr)
+		if err != nil {
+			return err
+		}
+		gcap := findFunc(gf, "GitBlobstore", "checkAndPutWithRemoteSync")
+		rmw := findFunc(gf, "GitBlobstore", "remoteManagedWrite")
+		if gcap == nil || rmw == nil {
+			return fmt.Errorf("GitBlobstore.checkAndPutWithRemoteSync / remoteManagedWrite not found")
+		}
+		var closure *ast.FuncLit
+		ast.Inspect(gcap.Body, func(n ast.Node) bool {
+			if ce, ok := n.(*ast.CallExpr); ok && exprName(ce.Fun) == "gbs.remoteManagedWrite" && closure == nil {
+				for _, a := range ce.Args {
+					if fl, ok := a.(*ast.FuncLit); ok {
+						closure = fl
+					}
+				}
+			}
+			return true
+		})
+		if closure == nil {
+			return fmt.Errorf("checkAndPutWithRemoteSync: build closure passed to remoteManagedWrite not found")
+		}
+		// top-level statements of the closure body: what runs unconditionally on every attempt
+		var top []string
+		for _, st := range closure.Body.List {
+			switch v := st.(type) {
+			case *ast.IfStmt:
+				top = append(top, "if "+norm(gr, v.Cond))
+			case *ast.AssignStmt:
+				top = append(top, norm(gr, v))
+			case *ast.ReturnStmt:
+				top = append(top, "return")
+			default:
+				top = append(top, fmt.Sprintf("%T", st))
+			}
+		}
+		c.defStringList("gitCapClosureTopLevel", top)
+		// every comparison of expectedVersion in the closure, with the conditions of the ifs enclosing it
+		var guards []string
+		var walk func(n ast.Node, encl []string)
+		walk = func(n ast.Node, encl []string) {
+			switch v := n.(type) {
+			case *ast.IfStmt:
+				cond := norm(gr, v.Cond)
+				if strings.Contains(cond, "expectedVersion") {
+					guards = append(guards, cond+" | enclosed by: "+strings.Join(encl, " && "))
+				}
+				walk(v.Body, append(append([]string{}, encl...), cond))
+				if v.Else != nil {
+					walk(v.Else, append(append([]string{}, encl...), "!("+cond+")"))
+				}
+			case *ast.BlockStmt:
+				for _, st := range v.List {
+					walk(st, encl)
+				}
+			}
+		}
+		walk(closure.Body, nil)
+		c.defStringList("gitCapVersionChecks", guards)
+		// remoteManagedWrite: op = fetch, build, update ref, push with lease on the fetched head; op is retried
+		c.defStringList("gitRetryLoopCalls", pick(rmw, map[string]bool{"gbs.writeMu.Lock": true, "gbs.fetchAlignAndMergeForWrite": true, "build": true,
+			"gbs.api.UpdateRef": true, "gbs.api.PushRefWithLease": true, "backoff.Retry": true}))
+		var pushArgs []string
+		ast.Inspect(rmw.Body, func(n ast.Node) bool {
+			if ce, ok := n.(*ast.CallExpr); ok && exprName(ce.Fun) == "gbs.api.PushRefWithLease" {
+				for _, a := range ce.Args {
+					pushArgs = append(pushArgs, norm(gr, a))
+				}
+			}
+			return true
+		})
+		c.defStringList("gitPushLeaseArgs", pushArgs)
+
 		const mr = "go/store/nbs/bs_manifest.go"
 		mf, err := c.file(mr)
 		if err != nil {
